@@ -96,3 +96,13 @@ Theorem C11_reinit_refusal_stores_no_share :
   let res := handle_reinit outer m (pre ++ bad :: post) in
   snd res = false /\ mem outer (rm_shares (fst res)) = false.
 Proof. exact refusal_before_master_key_stores_no_share. Qed.
+
+(* OPEN FINDING (known_findings: C11 error-report-lost): "the round ends cancelled on every node" fails
+   on a node that is still in an earlier phase when the addressee's report arrives - the report of a
+   later phase has no route there and is refused, whatever the round holds.  The deviating dealer
+   decides the order of its (per-addressee) deal messages, so it can arrange exactly this. *)
+Theorem C11_report_of_a_later_phase_refuted :
+  forall now k j p req, (k < j)%N -> (j < 4)%N ->
+  round_step now (dmk (st_await_of k) p) (ev_dkg_error j) req = SRej.
+Proof. exact later_phase_report_refused. Qed.
+Print Assumptions C11_report_of_a_later_phase_refuted.
